@@ -55,6 +55,40 @@ impl Abs for RefBytes {
     fn gen(rng: &mut StdRng, d: u32) -> Self { RefBytes(SBytes::gen(rng, d).0) }
 }
 
+// ---- types whose serde impls choose between a readable and a compact form by asking the format (is_human_readable): the bridge
+// is a binary format on both sides, so they take the compact form - and serializer and deserializer must agree about that
+macro_rules! net_wrapper {
+    ($name:ident, $inner:ty, $abs:expr) => {
+        #[derive(Debug, Clone, PartialEq, serde::Serialize, serde::Deserialize)]
+        pub struct $name(pub $inner);
+        impl Abs for $name {
+            fn to_abs(&self) -> Value { let f: fn(&$inner) -> Value = $abs; f(&self.0) }
+            fn gen(rng: &mut StdRng, d: u32) -> Self { $name(<$inner as Abs>::gen(rng, d)) }
+        }
+    };
+}
+fn octets(b: &[u8]) -> Value { json!({"k":"seq","xs": b.iter().map(|x| x.to_abs()).collect::<Vec<_>>()}) }
+fn sock4(a: &std::net::SocketAddrV4) -> Value { json!({"k":"seq","xs":[octets(&a.ip().octets()), a.port().to_abs()]}) }
+fn sock6(a: &std::net::SocketAddrV6) -> Value { json!({"k":"seq","xs":[octets(&a.ip().octets()), a.port().to_abs()]}) }
+net_wrapper!(SIpv4, std::net::Ipv4Addr, |a| octets(&a.octets()));
+net_wrapper!(SIpv6, std::net::Ipv6Addr, |a| octets(&a.octets()));
+net_wrapper!(SIpAddr, std::net::IpAddr, |a| match a { std::net::IpAddr::V4(x) => json!({"k":"var","i":0,"x":octets(&x.octets())}), std::net::IpAddr::V6(x) => json!({"k":"var","i":1,"x":octets(&x.octets())}) });
+net_wrapper!(SSockV4, std::net::SocketAddrV4, sock4);
+net_wrapper!(SSockAddr, std::net::SocketAddr, |a| match a { std::net::SocketAddr::V4(x) => json!({"k":"var","i":0,"x":sock4(x)}), std::net::SocketAddr::V6(x) => json!({"k":"var","i":1,"x":sock6(x)}) });
+/// A hand-written type that records what the format says about itself on each side.
+#[derive(Debug, Clone, PartialEq)]
+pub struct Readable(pub bool);
+impl Serialize for Readable {
+    fn serialize<S: Serializer>(&self, s: S) -> Result<S::Ok, S::Error> { let h = s.is_human_readable(); s.serialize_bool(h) }
+}
+impl<'de> Deserialize<'de> for Readable {
+    fn deserialize<D: Deserializer<'de>>(d: D) -> Result<Self, D::Error> { let h = d.is_human_readable(); let w = bool::deserialize(d)?; if w == h { Ok(Readable(h)) } else { Err(de::Error::custom("serializer and deserializer disagree about is_human_readable")) } }
+}
+impl Abs for Readable {
+    fn to_abs(&self) -> Value { json!({"k":"bool","b":false}) }       // a binary format: never human readable
+    fn gen(_: &mut StdRng, _: u32) -> Self { Readable(false) }
+}
+
 /// A string written through collect_str (Display) and read through deserialize_str with a visitor that accepts borrowed and transient strings.
 #[derive(Debug, Clone, PartialEq)]
 pub struct DispStr(pub String);
